@@ -36,6 +36,28 @@ def _sorted_call(fnode):
         if isinstance(n, ast.Return) and isinstance(n.value, ast.Call) and \
                 dotted(n.value.func) == 'sorted':
             return n.value
+    # L = list(SRC) / SRC[:] / list copy; L.sort(key=.., reverse=..); return L
+    # is read as sorted(SRC, key=.., reverse=..)
+    body = [x for x in fnode.body if not (isinstance(x, ast.Expr) and
+                                          isinstance(x.value, ast.Constant))]
+    if len(body) == 3 and isinstance(body[0], ast.Assign) and len(body[0].targets) == 1 and \
+            isinstance(body[0].targets[0], ast.Name) and isinstance(body[1], ast.Expr) and \
+            isinstance(body[1].value, ast.Call) and isinstance(body[1].value.func, ast.Attribute) \
+            and body[1].value.func.attr == 'sort' and \
+            norm_text(body[1].value.func.value) == body[0].targets[0].id and \
+            isinstance(body[2], ast.Return) and isinstance(body[2].value, ast.Name) and \
+            body[2].value.id == body[0].targets[0].id:
+        v = body[0].value
+        src = None
+        if isinstance(v, ast.Call) and dotted(v.func) == 'list' and len(v.args) == 1:
+            src = v.args[0]
+        elif isinstance(v, ast.Subscript) and isinstance(v.slice, ast.Slice) and \
+                v.slice.lower is None and v.slice.upper is None:
+            src = v.value
+        if src is not None:
+            c = ast.Call(func=ast.Name(id='sorted', ctx=ast.Load()), args=[src],
+                         keywords=body[1].value.keywords)
+            return ast.copy_location(c, body[2])
     return None
 
 
